@@ -830,6 +830,10 @@ htp_status_t htp_connp_RES_HEADERS(htp_connp_t *connp) {
                 connp->out_header = NULL;
             }
 
+            // A line that was only partly received cannot be used; as on the request
+            // side it is dropped, so that finalization does not take it for body data.
+            htp_connp_res_clear_buffer(connp);
+
             // Finalize sending raw trailer data.
             htp_status_t rc = htp_connp_res_receiver_finalize_clear(connp);
             if (rc != HTP_OK) return rc;
